@@ -164,7 +164,7 @@ def allSome {α : Type} : List (Option α) → Option (List α)
   | some a :: r => (allSome r).map (a :: ·)
 
 /-- the record-count line: `list(map(int, line.split()))` matched against `[na] | [na, nb] | [na, nb, ns, *rest]`;
-a negative count is a syntax error (REPAIRED behaviour, defect D40: the unrepaired reader accepts a header
+a negative count is a syntax error (REPAIRED behaviour, defect D56: the unrepaired reader accepts a header
 that declares a negative number of bonds and returns a molecule with 0 bonds) -/
 def parseCounts (s : Str) : Except Err (Int × Option Int) :=
   match allSome ((pySplit s).map parseInt) with
